@@ -136,4 +136,34 @@ impl BusListener {
             None
         }
     }
+
+    #[cfg(feature = "verif-hooks")]
+    pub(crate) fn verif_flags(&self) -> (usize, bool, bool, bool) {
+        (
+            self.filters.len(),
+            self.scope.is_some(),
+            self.matches_all_objects,
+            self.matches_specific_services,
+        )
+    }
+
+    #[cfg(feature = "verif-hooks")]
+    pub(crate) fn verif_flags_expected(&self) -> (bool, bool) {
+        let all_objects = self
+            .filters
+            .iter()
+            .any(|&f| f == BusListenerFilter::Object(None));
+
+        let specific_services = self.filters.iter().all(|f| {
+            matches!(
+                f,
+                BusListenerFilter::Service(BusListenerServiceFilter {
+                    object: Some(_),
+                    service: Some(_),
+                })
+            )
+        });
+
+        (all_objects, specific_services)
+    }
 }
